@@ -324,8 +324,9 @@ Definition drop_cols (ds : list string) (t : table) : option table :=
 
 Inductive cres := CRaise | CNone | CMap (m : recmap).
 
-(* RecordMap.compose: self.compose(other); sfx = the value_suffix with which compose calls example_input
-   (read from the source on every run; " value" on the unchanged tree) *)
+(* RecordMap.compose: self.compose(other); sfx = the value_suffix with which compose calls example_input (read from the
+   source on every run: "" since /repo 031522a, " value" before -- then the composite's control tables held the example's
+   cell values "<name> value" instead of the names) *)
 Definition compose (sfx : string) (self other : recmap) : cres :=
   let s1 := other in let s2 := self in
   match map_record_keys s1, map_record_keys s2 with
